@@ -241,6 +241,11 @@ def train_off_policy(
         pop_fps = []
         for agent_idx, agent in enumerate(pop):  # Loop through population
             state, info = env.reset()  # Reset environment at start of episode
+            if getattr(n_step_memory, "n_step_buffer", None) is not None:
+                # The environment starts new episodes here: transitions collected before the
+                # reset must not be fused with the ones that follow into one n-step return
+                n_step_memory.n_step_buffer.clear()
+
             scores = np.zeros(num_envs)
             completed_episode_scores, losses = [], []
             steps = 0
